@@ -76,7 +76,12 @@ import HexVerif.X.Sem
     label and every ASSIGNED cell to the reference state; array cells are excluded from every
     "the callee leaves the caller's memory alone" clause.  xcmp emits no bounds checks: the
     theorem speaks of defined runs only, and X leaves out-of-range subscripts undefined.
-  Open: array formals and string literals, calls of impure procedures in operands (X leaves the order open only if the other operand
+    ARRAY FORMALS are included: an actual is the name of a global array or of an array formal; the
+    word passed is the array's address (`wordOf`), `CallSpec` speaks of values.
+    GLOBAL CONSTANTS (`val n = e`) are included: `ConstProp`'s table is `G.rho` (= what `X.bindGlobals`
+    computes), array lengths may be constants, and a call through a constant `< 3` is the system call
+    with that number (`execS_valcall`).
+  Open: string literals, local `val`s, calls of impure procedures in operands (X leaves the order open only if the other operand
   is constant), calls inside actuals, `val`/array declarations and formals, subscripts and strings;
   replacing the reflective checks by a proof that they always succeed.
 -/
@@ -298,7 +303,7 @@ theorem C01_stage4_partial (G : C01s.GCtx) (ok : G.OK) (fuel : Nat) :
 
 /-- **`C01_v2_partial`.**  The full C01 statement for the programs that satisfy the decidable
     predicate `C01s.v2Ok`: procedures and functions with `val` formals (recursion allowed), global
-    `var`s and arrays of literal length, local `var`s, bodies in the stage-4 fragment (with
+    `val`s, `var`s and arrays of constant length, local `var`s, `val` and `array` formals, bodies in the stage-4 fragment (with
     subscripts and assignments to array elements), whose compilation passes `C01s.v2Check`. -/
 theorem C01_v2_partial (P : X.Program) (inp : X.Input) (n : Nat) (β : X.Behaviour) (img : Asm.Image)
     (hr : C01s.v2Ok P = true) :
@@ -385,34 +390,39 @@ example : ∃ img, Xcmp.compile demoV3 = .ok img := by
     rw [h] at this
     simp at this
 
-/-- `var g; array a[10]; array b[5];
-     proc fill(val n) is var i; { i := 0; while i < n do { a[i] := i + i; i := i + 1 } }
-     func sum(val n) is var i; var s; { i := 0; s := 0; while i < n do { s := s + a[i]; i := i + 1 }; return s }
-     proc main() is var r; { fill(10); b[2] := a[3] + 1; r := sum(10) + b[2]; g := r; 1(b[2] + 48, 0); 0(r) }` -/
+/-- `val put = 1; val len = 8; var g; array a[len]; array b[4];
+     proc fill(array t, val n) is var i; { i := 0; while i < n do { t[i] := i + 3; i := i + 1 } }
+     func sum(array t, val n) is var i; var s; { i := 0; s := 0; while i < n do { s := s + t[i]; i := i + 1 }; return s }
+     proc both(array x, array y) is { fill(x, len); fill(y, 4) }
+     proc main() is var r; { both(a, b); b[2] := a[3] + 1; r := sum(a, len) - sum(b, 4); g := r; put(b[2] + 48, 0); 0(r) }` -/
 def demoArr : X.Program :=
-  { globals := [.var "g", .array "a" (.num 10), .array "b" (.num 5)],
+  { globals := [.val "put" (.num 1), .val "len" (.num 8), .var "g", .array "a" (.name "len"), .array "b" (.num 4)],
     procs := [
-      { isFunc := false, name := "fill", formals := [.val "n"], locals := [.var "i"],
+      { isFunc := false, name := "fill", formals := [.array "t", .val "n"], locals := [.var "i"],
         body := .seq [.assign "i" (.num 0),
                       .while (.bin .ls (.name "i") (.name "n"))
-                        (.seq [.assignSub "a" (.name "i") (.bin .plus (.name "i") (.name "i")), .assign "i" (.bin .plus (.name "i") (.num 1))])] },
-      { isFunc := true, name := "sum", formals := [.val "n"], locals := [.var "i", .var "s"],
+                        (.seq [.assignSub "t" (.name "i") (.bin .plus (.name "i") (.num 3)), .assign "i" (.bin .plus (.name "i") (.num 1))])] },
+      { isFunc := true, name := "sum", formals := [.array "t", .val "n"], locals := [.var "i", .var "s"],
         body := .seq [.assign "i" (.num 0), .assign "s" (.num 0),
                       .while (.bin .ls (.name "i") (.name "n"))
-                        (.seq [.assign "s" (.bin .plus (.name "s") (.sub "a" (.name "i"))), .assign "i" (.bin .plus (.name "i") (.num 1))]),
+                        (.seq [.assign "s" (.bin .plus (.name "s") (.sub "t" (.name "i"))), .assign "i" (.bin .plus (.name "i") (.num 1))]),
                       .ret (.name "s")] },
+      { isFunc := false, name := "both", formals := [.array "x", .array "y"], locals := [],
+        body := .seq [.call "fill" [.name "x", .name "len"], .call "fill" [.name "y", .num 4]] },
       { isFunc := false, name := "main", formals := [], locals := [.var "r"],
-        body := .seq [.call "fill" [.num 10],
+        body := .seq [.call "both" [.name "a", .name "b"],
                       .assignSub "b" (.num 2) (.bin .plus (.sub "a" (.num 3)) (.num 1)),
-                      .assign "r" (.bin .plus (.call "sum" [.num 10]) (.sub "b" (.num 2))),
+                      .assign "r" (.bin .minus (.call "sum" [.name "a", .name "len"]) (.call "sum" [.name "b", .num 4])),
                       .assign "g" (.name "r"),
-                      .syscall 1 [.bin .plus (.sub "b" (.num 2)) (.num 48), .num 0], .syscall 0 [.name "r"]] }] }
+                      .call "put" [.bin .plus (.sub "b" (.num 2)) (.num 48), .num 0], .syscall 0 [.name "r"]] }] }
 
-/-! Non-vacuity for arrays: `demoArr` (two global arrays; a procedure that fills one, a pure
-    function that sums it, constant and computed subscripts, a call next to a subscript) is in
-    the class V3, has a defined behaviour (one character written, exit value 97) and compiles. -/
+/-! Non-vacuity for arrays: `demoArr` (two global arrays passed as array formals - also two at
+    once and passed on -, a procedure that fills its array formal, a pure function that sums it,
+    constant and computed subscripts, two calls as the operands of `-`; global constants: an array
+    length, an actual, and the system call `put` called through a constant) is in the class V3, has
+    a defined behaviour (one character written, exit value 32) and compiles. -/
 example : C01s.v3Ok demoArr = true := by decide +kernel
-example : behaviourIs (X.run demoArr ⟨[], fun _ => []⟩ 5000) 97 1 = true := by decide +kernel
+example : behaviourIs (X.run demoArr ⟨[], fun _ => []⟩ 5000) 32 1 = true := by decide +kernel
 example : ∃ img, Xcmp.compile demoArr = .ok img := by
   cases h : Xcmp.compile demoArr with
   | ok img => exact ⟨img, rfl⟩
